@@ -1375,28 +1375,35 @@ def r_position_same(P, L, s, d):
 
 def r_position_unwrap(P, L, s, d):
     """`position(..).unwrap()` where the searched-for element was taken from the same collection."""
-    if d["kind"] == "call" and d["construct"] == "Option::unwrap/expect" and s.body.name.startswith("parsed_test_case::ParsedTestCase::check_missing_signals::{closure#1}"):
+    if d["kind"] == "call" and d["construct"] == "Option::unwrap/expect" and re.match(r"parsed_test_case::ParsedTestCase::check_missing_signals::\{closure#\d+\}$", s.body.name):
         if re.fullmatch(r"Iterator::position\(\[T\]::iter\(self\.signals\), closure\(\{closure#0\}\)\)", d["args"][0]):
-            # the closure compares with `name`, an element of missing_signals, which is a filter_map over self.signals
+            # the closure compares with `name`, an element of missing_signals, which is a selection (filter_map, or filter + map) over self.signals
             par = P.body("parsed_test_case::ParsedTestCase::check_missing_signals")
             use = P.closure_use(s.body)
             good = False
+            ENUM = r"Iterator::enumerate\(\[T\]::iter\(self\.signals\)\)"
+            MISSING = r"\[T\]::iter\(Iterator::collect\(" + sel_re(ENUM) + r"\)\)"
             if use is not None:
                 recv = canon(use[1][0])
-                good = recv == "[T]::iter(Iterator::collect(Iterator::filter_map(Iterator::enumerate([T]::iter(self.signals)), closure({closure#0}))))"
-            c0 = P.body("parsed_test_case::ParsedTestCase::check_missing_signals::{closure#0}")
-            if good and c0 is not None:
+                good = re.fullmatch(MISSING, recv) is not None
+            # the selection's projection copies the signal's own name
+            copies = False
+            for c0 in (P.f.closures_of(par.name) if par is not None else []):
+                if c0 is s.body:
+                    continue
                 rets = set(canon(P.resolve(c0, P.sl(c0).ret(rb))) for rb in P.cfg(c0).return_blocks())
-                good = all("ToOwned::to_owned(elem(Iterator::enumerate([T]::iter(self.signals))).1)" in r for r in rets)
+                if rets and all(re.search(r"ToOwned::to_owned\(elem\((?:Iterator::filter\()?" + ENUM + r"(?:, closure\(\{closure#\d+\}\)\))?\)\.1\)", r) for r in rets if r != "Option::None{}") and any("to_owned" in r for r in rets):
+                    copies = True
+            good = good and copies
             inner = P.body(s.body.name + "::{closure#0}")
             if good and inner is not None:
                 # the predicate is exactly `sig_name == name` (element of self.signals against the searched copy), not its negation
                 rets = set(canon(P.resolve(inner, P.sl(inner).ret(rb))) for rb in P.cfg(inner).return_blocks())
-                A = "elem([T]::iter(self.signals))"
-                B = "elem([T]::iter(Iterator::collect(Iterator::filter_map(Iterator::enumerate([T]::iter(self.signals)), closure({closure#0})))))"
+                A = re.escape("elem([T]::iter(self.signals))")
+                B = r"elem\(" + MISSING + r"\)"
                 r0 = next(iter(rets)) if len(rets) == 1 else ""
                 m0 = re.match(r"PartialEq[^(]*::eq\(", r0)
-                good = bool(m0) and r0[m0.end():-1] in ("%s, %s" % (A, B), "%s, %s" % (B, A))
+                good = bool(m0) and (re.fullmatch("%s, %s" % (A, B), r0[m0.end():-1]) is not None or re.fullmatch("%s, %s" % (B, A), r0[m0.end():-1]) is not None)
             return (good, "the searched name is a copy of an element of self.signals, so position() is Some")
     return None
 
